@@ -29,7 +29,7 @@
    are compared with the implementation; rounding accuracy of det/inverse over f64/Complex<f64> is tied and searched, not proved. *)
 From Coq Require Import List Arith.
 From OV Require Import Base.Panic Base.Arith Inst.QcInst Model.Vector Model.Matrix Model.Solve
-  Proofs.Matrix Proofs.LUPrim Proofs.LUSum Proofs.LU Proofs.LUSolve Proofs.LUInv Proofs.LUInvC Proofs.LUPanic Proofs.LUSolveC Proofs.LUQc Proofs.LUReal.
+  Proofs.Matrix Proofs.LUPrim Proofs.LUSum Proofs.LU Proofs.LUSolve Proofs.LUInv Proofs.LUInvC Proofs.LUPanic Proofs.LUSolveC Proofs.LUKernel Proofs.LUQc Proofs.LUQcEx Proofs.LUReal.
 Import ListNotations.
 
 Theorem lu_spec : forall (A : Arith), FieldLaws A -> PivLaws A -> forall M : matrix A, wf M -> rows M = cols M ->
@@ -112,6 +112,41 @@ Check inverse_result : forall (A : Arith), FieldLaws A -> PivLaws A -> forall (M
 Print Assumptions inverse_result.
 Example inverse_result_nonvacuous : wf M3 /\ rows M3 = cols M3 /\ 1 <= rows M3 /\ is_ok (determinant M3) = true.
 Proof. split; [reflexivity|]. split; [reflexivity|]. split; [repeat constructor|]. vm_compute. reflexivity. Qed.
+
+(* C02's inverse half for EVERY nonsingular matrix (nonsingular = has a left inverse Nf) over any field with a magnitude -- Qc, R, C
+   included, no mathcomp: inverse returns, the result is Nf, and it is a two-sided inverse; the determinant is a nonzero value. *)
+Theorem inverse_nonsingular : forall (A : Arith), FieldLaws A -> PivLaws A -> forall (M : matrix A) (Nf : nat -> nat -> A), wf M -> rows M = cols M ->
+  left_inverse (rows M) Nf (ent M) ->
+  exists N, inverse M = Ok N /\ shape N (rows M) (rows M) /\
+    (forall i j, i < rows M -> j < rows M -> ent N i j = Nf i j) /\
+    (forall i j, i < rows M -> j < rows M -> mprod (rows M) (ent M) (ent N) i j = delta i j) /\
+    (forall i j, i < rows M -> j < rows M -> mprod (rows M) (ent N) (ent M) i j = delta i j).
+Proof. intros A FL PL M Nf. exact (inverse_nonsingular_lemma FL PL M Nf). Qed.
+Check inverse_nonsingular : forall (A : Arith), FieldLaws A -> PivLaws A -> forall (M : matrix A) (Nf : nat -> nat -> A), wf M -> rows M = cols M ->
+  left_inverse (rows M) Nf (ent M) ->
+  exists N, inverse M = Ok N /\ shape N (rows M) (rows M) /\
+    (forall i j, i < rows M -> j < rows M -> ent N i j = Nf i j) /\
+    (forall i j, i < rows M -> j < rows M -> mprod (rows M) (ent M) (ent N) i j = delta i j) /\
+    (forall i j, i < rows M -> j < rows M -> mprod (rows M) (ent N) (ent M) i j = delta i j).
+Print Assumptions inverse_nonsingular.
+Example inverse_nonsingular_nonvacuous : wf M3 /\ rows M3 = cols M3 /\ left_inverse (rows M3) (ent N3) (ent M3).
+Proof. split; [reflexivity|]. split; [reflexivity|]. exact M3_left_inverse. Qed.
+
+Theorem determinant_nonsingular : forall (A : Arith), FieldLaws A -> PivLaws A -> forall (M : matrix A) (Nf : nat -> nat -> A), wf M -> rows M = cols M ->
+  left_inverse (rows M) Nf (ent M) -> exists d, determinant M = Ok d /\ d <> zero.
+Proof. intros A FL PL M Nf. exact (determinant_nonsingular_lemma FL PL M Nf). Qed.
+Check determinant_nonsingular : forall (A : Arith), FieldLaws A -> PivLaws A -> forall (M : matrix A) (Nf : nat -> nat -> A), wf M -> rows M = cols M ->
+  left_inverse (rows M) Nf (ent M) -> exists d, determinant M = Ok d /\ d <> zero.
+Print Assumptions determinant_nonsingular.
+
+Theorem solve_lu_complete_field_c02 : forall (A : Arith), FieldLaws A -> PivLaws A -> forall (M : matrix A) (b : list A) (Nf : nat -> nat -> A),
+  wf M -> rows M = cols M -> 1 <= rows M -> length b = rows M -> left_inverse (rows M) Nf (ent M) ->
+  exists x, solve_lu M b = Ok x.
+Proof. intros A FL PL M b Nf. exact (solve_lu_nonsingular_lemma FL PL M b Nf). Qed.
+Check solve_lu_complete_field_c02 : forall (A : Arith), FieldLaws A -> PivLaws A -> forall (M : matrix A) (b : list A) (Nf : nat -> nat -> A),
+  wf M -> rows M = cols M -> 1 <= rows M -> length b = rows M -> left_inverse (rows M) Nf (ent M) ->
+  exists x, solve_lu M b = Ok x.
+Print Assumptions solve_lu_complete_field_c02.
 
 (* the hypotheses are met by the arithmetics the code is used at (proved instances, not assumptions) *)
 Example laws_hold_at_Qc : PivLaws AQ.  Proof. exact AQ_PivLaws. Qed.
